@@ -45,9 +45,13 @@ def div (a b : CFloat) : CFloat :=
   (r / n, i / n)
 def neg (a : CFloat) : CFloat := (-a.1, -a.2)
 
-/-- stand-in for C `hypot` (not available on Lean's `Float`): scaled to avoid spurious overflow; may differ
-from libm's by an ulp or two. -/
-def hypot (x y : Float) : Float :=
+/-- C `hypot` from the platform libm — the very function Rust's `f64::hypot` calls (Lean's `Float` API does
+not expose it, so it is bound here; compiled code only, the interpreter cannot evaluate it).  No theorem
+mentions `CFloat`, so nothing is proved about (or with) this constant. -/
+@[extern "hypot"] opaque hypot : Float → Float → Float
+
+/-- pure-Lean stand-in for `hypot` (for `#eval` experiments only; may differ from libm's by an ulp or two). -/
+def hypotEmulated (x y : Float) : Float :=
   if x.isInf || y.isInf then Float.abs (if x.isInf then x else y)
   else if x.isNaN || y.isNaN then x + y
   else
